@@ -207,7 +207,8 @@ PExtractUntil(b, ptr, c) ==              \* extract_until_char: rstring_view {of
 PSkipString(b, ptr, s) == IF StartsAt0(b, ptr, s) THEN ptr + Len(s) ELSE ptr
 PSkipChar(b, ptr, c) == IF ptr < Len(b) /\ b[ptr + 1] = c THEN ptr + 1 ELSE ptr                      \* skip_chars(c)
 PSkipChars(b, ptr, c) == ptr + RunLen(b, ptr + 1, {c})                                  \* skip_chars(c, true)
-PExtractInteger(b, ptr) == LET n == RunLen(b, ptr + 1, Digits) IN [ptr |-> ptr + n, val |-> DecVal(Sub0(b, ptr, n), n)]
+BIG == 2000000000     \* stands for any value beyond the model's integers (TLC integers are 32-bit)
+PExtractInteger(b, ptr) == LET n == RunLen(b, ptr + 1, Digits) IN [ptr |-> ptr + n, val |-> IF n > 9 THEN BIG ELSE DecVal(Sub0(b, ptr, n), n)]
 
 (* ---- message.cpp: Response::parse_status_line / Request::parse_request_line ---- *)
 ParseStatusLine(b) ==
@@ -259,6 +260,9 @@ HParse(b, start, ptr, kvs, cap, stale, oob) ==
       c0 == IF atEnd THEN stale ELSE b[ptr + 1]                  \* p[0]
   IN IF atEnd /\ "staleHeaderRead" \notin KF THEN [rc |-> -1, kvs |-> kvs, oob |-> oob]   \* intended: stop at the end of the data
      ELSE IF c0 = CR THEN [rc |-> 0, kvs |-> kvs, oob |-> oob \/ atEnd]
+     \* at the end of the data with another stale byte every iteration adds an empty pair and stays there: the loop can only
+     \* end when kv_add finds the buffer full ("add kv failed")
+     ELSE IF atEnd THEN [rc |-> -1, kvs |-> kvs, oob |-> TRUE]
      ELSE LET k == PExtractUntil(b, ptr, COLON)
               p1 == PSkipChars(b, k.ptr, SP)
               v == PExtractUntil(b, p1, CR)
@@ -297,16 +301,17 @@ AppendBytes(kind, H, data, cap, stale) ==
                    bodyBegin == income + pos
                    bodyLen == Len(data) - pos
                    sl == IF kind = "req" THEN ParseRequestLine(buf) ELSE ParseStatusLine(buf)
-               IN IF sl.rc < 0 THEN [H EXCEPT !.buf = buf, !.rc = -1, !.oob = @ \/ sl.oob]
+               IN IF sl.rc < 0 THEN [H EXCEPT !.buf = buf, !.rc = -1, !.oob = @ \/ sl.oob, !.overrun = @ \/ sl.oob]
                   ELSE LET hp == HParse(buf, sl.ptr, sl.ptr, <<>>, cap, stale, FALSE) IN
-                       IF hp.rc < 0 THEN [H EXCEPT !.buf = buf, !.rc = -1, !.oob = @ \/ sl.oob \/ hp.oob]
+                       IF hp.rc < 0 THEN [H EXCEPT !.buf = buf, !.rc = -1, !.oob = @ \/ sl.oob \/ hp.oob, !.overrun = @ \/ sl.oob]
                        ELSE LET idx == SortKV(buf, hp.kvs, Len(hp.kvs))
                                 conn == HValue(buf, idx, S_CONN)
                                 abandon == conn = S_CLOSE \/ HValue(buf, idx, S_TRAILER) # <<>>
                                            \/ (Sub0(buf, sl.ver[1], sl.ver[2]) = S_10 /\ conn # S_KA)
-                            IN [H EXCEPT !.buf = buf, !.rc = 0, !.parsed = TRUE, !.oob = @ \/ sl.oob \/ hp.oob, !.sl = sl, !.idx = idx,
+                            IN [H EXCEPT !.buf = buf, !.rc = 0, !.parsed = TRUE, !.oob = @ \/ sl.oob \/ hp.oob, !.overrun = @ \/ sl.oob, !.sl = sl, !.idx = idx,
                                          !.body = <<bodyBegin, bodyLen>>, !.abandon = abandon]
-HInit == [buf |-> <<>>, parsed |-> FALSE, rc |-> 2, oob |-> FALSE, sl |-> [rc |-> -1], idx |-> <<>>, body |-> <<0, 0>>, abandon |-> FALSE]
+\* oob: some byte outside the received data was read; overrun: an unbounded read (it can leave the buffer)
+HInit == [buf |-> <<>>, parsed |-> FALSE, rc |-> 2, oob |-> FALSE, overrun |-> FALSE, sl |-> [rc |-> -1], idx |-> <<>>, body |-> <<0, 0>>, abandon |-> FALSE]
 \* one call of receive_bytes: result rc 0 parsed / 1 end of stream / 2 partial / -1 error
 ReceiveBytes(kind, H, frags, cap, stale) ==
   IF cap - Len(H.buf) <= MaxTransfer + ReservedIndex THEN [H |-> [H EXCEPT !.rc = -1], frags |-> frags, ops |-> 0]
@@ -319,7 +324,7 @@ IsChunked(H) == HValue(H.buf, H.idx, S_TE) = S_CHUNKED
 BodySize(kind, H) ==
   LET cl == HFind(H.buf, H.idx, S_CL) IN
   IF kind = "resph" \/ (kind = "req" /\ H.sl.verb = VERB_HEAD) THEN 0
-  ELSE IF cl[1] # -1 THEN LET v == Sub0(H.buf, cl[1], cl[2])  n == RunLen(v, 1, Digits) IN DecVal(v, n)
+  ELSE IF cl[1] # -1 THEN LET v == Sub0(H.buf, cl[1], cl[2])  n == RunLen(v, 1, Digits) IN IF n > 9 THEN BIG ELSE DecVal(v, n)
   ELSE IF H.abandon /\ ~IsChunked(H) THEN -1
   ELSE 0
 HeadersSpaceRemain(H, cap) == (cap - H.sl.ptr) - (Len(H.buf) - H.sl.ptr) - 8 * Len(H.idx)
@@ -340,7 +345,7 @@ BodyRead(B, frags, count0) ==
 (* ---- body.cpp: ChunkedBodyReadStream ---- *)
 \* C: [lb (m_get_line_buf[0..m_line_size)), cur (m_cursor), rem (m_chunked_remain), fin (m_finish)]
 ChunkInit(partial) == [lb |-> partial, cur |-> 0, rem |-> 0, fin |-> FALSE]
-HexPrefix(s) == LET n == RunLen(s, 1, HexDigits) IN HexVal(s, n)                 \* hex_to_uint64(): 0 when there is no digit
+HexPrefix(s) == LET n == RunLen(s, 1, HexDigits) IN IF n > 7 THEN BIG ELSE HexVal(s, n)                 \* hex_to_uint64(): 0 when there is no digit
 PosNextChunk(C, pos, frags) ==
   LET line == From0(C.lb, pos)
       p == Find0(line, 0, CRLF)
@@ -417,4 +422,59 @@ BodyWriteAll(data, sizes, size, cnt) ==
   ELSE LET wc == Min(Head(sizes), size - cnt)
            r == BodyWriteAll(SubSeq(data, Head(sizes) + 1, Len(data)), Tail(sizes), size, cnt + wc)
        IN [wire |-> SubSeq(data, 1, wc) \o r.wire, rets |-> <<wc>> \o r.rets]
+
+(* ======================================= Part 4: one whole case ======================================= *)
+HeadKinds == {"resp", "resph", "req"}
+Wire(m) == IF m.kind = "wchunk" THEN ChunkedWriteAll(m.data, m.sizes)
+           ELSE IF m.kind = "wlen" THEN BodyWriteAll(m.data, m.sizes, m.dn, 0).wire
+           ELSE m.bytes
+ReaderKind(m) == IF m.kind = "wchunk" THEN "cbody" ELSE IF m.kind = "wlen" THEN "lbody" ELSE m.kind
+\* what the property demands for this message: [valid, payload, ...]
+Expect(m, w) ==
+  IF m.kind \in HeadKinds THEN Reference(m.kind, w)
+  ELSE IF m.kind = "wchunk" THEN [valid |-> TRUE, payload |-> m.data]
+  ELSE IF m.kind = "wlen" THEN [valid |-> TRUE, payload |-> SubSeq(m.data, 1, Min(Len(m.data), m.dn))]   \* short when less than declared was written
+  ELSE LET p == Payload(w, IF m.kind = "cbody" THEN [f |-> "chunked"] ELSE IF m.kind = "lbody" THEN [f |-> "length", n |-> m.dn] ELSE [f |-> "close"])
+       IN [valid |-> p.ok, payload |-> p.data]
+
+Flip(s) == [i \in 1..Len(s) |-> IF s[i] \in 65..90 THEN s[i] + 32 ELSE IF s[i] \in 97..122 THEN s[i] - 32 ELSE s[i]]
+InRange(p, n) == p[1] >= 0 /\ p[2] >= 0 /\ p[1] + p[2] <= n
+(* ---------------------------------------------------------------- the same machine as a function ---------------------------------------------------------------- *)
+(* RunCase evaluates one whole case (used by Trace_HttpFraming to compare a recorded case of the real code with the          *)
+(* transcription, and by FuncAgree of HttpFraming, which ties it to the step machine explored by TLC).                                *)
+RECURSIVE HdrLoop(_, _, _, _, _, _)
+HdrLoop(kind, h, fr, cap, stale, n) ==
+  LET r == ReceiveBytes(kind, h, fr, cap, stale) IN
+  IF r.H.rc = 2 THEN HdrLoop(kind, r.H, r.frags, cap, stale, n + r.ops) ELSE [H |-> r.H, frags |-> r.frags, ops |-> n + r.ops]
+ReadOnce(rd, fr, size, fuel) == IF rd.t = "chunked" THEN ChunkedRead(rd.st, fr, size, fuel) ELSE BodyRead(rd.st, fr, size)
+\* reads with the sizes rsq (cyclically) until a read returns <= 0; after a 0 one more read of rsq[1] (as the harness does)
+RECURSIVE ReadLoop(_, _, _, _, _, _, _, _)
+ReadLoop(rd, fr, rsq, k, o, rt, n, fuel) ==
+  LET r == ReadOnce(rd, fr, rsq[((k - 1) % Len(rsq)) + 1], fuel)
+      o1 == IF r.ret > 0 THEN o \o r.data ELSE o
+  IN IF r.runaway THEN [body |-> o1, rets |-> Append(rt, r.ret), ops |-> n + r.ops, runaway |-> TRUE]
+     ELSE IF r.ret < 0 THEN [body |-> o1, rets |-> Append(rt, -1), ops |-> n + r.ops, runaway |-> FALSE]
+     ELSE IF r.ret = 0
+          THEN LET q == ReadOnce([rd EXCEPT !.st = r.st], r.frags, rsq[1], fuel) IN
+               [body |-> IF q.ret > 0 THEN o1 \o q.data ELSE o1, rets |-> rt \o <<0, IF q.ret < 0 THEN -1 ELSE q.ret>>, ops |-> n + r.ops + q.ops, runaway |-> q.runaway]
+          ELSE ReadLoop([rd EXCEPT !.st = r.st], r.frags, rsq, k + 1, o1, Append(rt, r.ret), n + r.ops, fuel)
+\* m: message record; w: its wire bytes; cuts: cut positions; pf: first fragment is the partial body (body kinds); rsq: read sizes
+RunCase(m, w, cuts, pf, rsq, cap, stale) ==
+  LET fr == Fragment(w, cuts, 0)
+      k == ReaderKind(m)
+      fuel == 4 * Len(w) + 20
+  IN IF m.kind \in HeadKinds
+     THEN LET h == HdrLoop(m.kind, HInit, fr, cap, stale, 0) IN
+          IF h.H.rc # 0 THEN [rh |-> h.H.rc, H |-> h.H, ops |-> h.ops]
+          ELSE IF IsChunked(h.H) /\ HeadersSpaceRemain(h.H, cap) < LineBuf THEN [rh |-> -1, H |-> h.H, ops |-> h.ops]
+          ELSE LET partial == Sub0(h.H.buf, h.H.body[1], h.H.body[2])
+                   rd == IF IsChunked(h.H) THEN [t |-> "chunked", st |-> ChunkInit(partial)]
+                         ELSE [t |-> "plain", st |-> BodyInit(partial, BodySize(m.kind, h.H))]
+               IN [rh |-> 0, H |-> h.H] @@ ReadLoop(rd, h.frags, rsq, 1, <<>>, <<>>, h.ops, fuel)
+     ELSE LET partial == IF pf /\ fr # <<>> THEN Head(fr) ELSE <<>>
+              rest == IF pf /\ fr # <<>> THEN Tail(fr) ELSE fr
+              rd == IF k = "cbody" THEN [t |-> "chunked", st |-> ChunkInit(partial)]
+                    ELSE [t |-> "plain", st |-> BodyInit(partial, IF k = "lbody" THEN m.dn ELSE -1)]
+          IN ReadLoop(rd, rest, rsq, 1, <<>>, <<>>, 0, fuel)
+
 =============================================================================
